@@ -220,19 +220,25 @@ impl<L: Language> RuleCore<L> {
         return None;
       }
     }
-    let ret = self.rule.match_node_with_env(node, env)?;
-    if !env.to_mut().match_constraints(&self.constraints) {
+    // match on a scratch view: if a constraint fails, the bindings made by
+    // the rule must not stay in the caller's environment
+    let mut scratch = Cow::Borrowed(env.as_ref());
+    let ret = self.rule.match_node_with_env(node, &mut scratch)?;
+    if !scratch.to_mut().match_constraints(&self.constraints) {
       return None;
     }
     if let Some(trans) = &self.transform {
       let rewriters = self.registration.get_rewriters();
-      let env = env.to_mut();
+      let env = scratch.to_mut();
       if let Some(enclosing) = enclosing_env {
         trans.apply_transform(env, rewriters, enclosing);
       } else {
         let enclosing = env.clone();
         trans.apply_transform(env, rewriters, &enclosing);
       };
+    }
+    if let Cow::Owned(matched) = scratch {
+      *env = Cow::Owned(matched);
     }
     Some(ret)
   }
